@@ -137,6 +137,41 @@ func IsNaN(x float64) bool { return x != x }
 // Finite reports that x is neither NaN nor infinite.
 func Finite(x float64) bool { return !math.IsNaN(x) && !math.IsInf(x, 0) }
 
+// And, Or, Not, Implies, B2I: boolean combinators that do not fork the symbolic path (Go's && and ||
+// are control flow in SSA: every one of them doubles the paths of a harness).
+func And(bs ...bool) bool {
+	for _, b := range bs {
+		if !b {
+			return false
+		}
+	}
+	return true
+}
+
+// Or: see And.
+func Or(bs ...bool) bool {
+	for _, b := range bs {
+		if b {
+			return true
+		}
+	}
+	return false
+}
+
+// Not: see And.
+func Not(b bool) bool { return !b }
+
+// Implies: see And.
+func Implies(a, b bool) bool { return !a || b }
+
+// B2I: 1 if b else 0, without forking.
+func B2I(b bool) int {
+	if b {
+		return 1
+	}
+	return 0
+}
+
 // Tiered returns q in the quick tier and t in the thorough tier (used for the sizes of constant lists).
 func Tiered(q, t int) int { return t }
 
@@ -200,6 +235,16 @@ var blockedNative = map[string]bool{}
 // Spawn registers thread f under a name.
 func Spawn(name string, f func()) {
 	spawned = append(spawned, f)
+	spawnedNames = append(spawnedNames, name)
+}
+
+// SpawnAfter registers thread f like Spawn, with the scheduling constraint that it takes its first
+// step only after every thread named in `after` (and every goroutine those threads started) has
+// reached its first blocking operation (parked select / Cond.Wait) or, if it never blocks, has
+// finished.  This fixes an arrival order ("B arrives once A is parked"); everything after that
+// point is still interleaved freely.  Natively: started 50 ms after the previous thread.
+func SpawnAfter(name string, f func(), after ...string) {
+	spawned = append(spawned, func() { time.Sleep(time.Duration(50*len(spawned)) * time.Millisecond); f() })
 	spawnedNames = append(spawnedNames, name)
 }
 
